@@ -134,6 +134,17 @@ def make_probe(desc, k):
             after[i] = 9
             return {"stmts": st, "expect": render_list(after), "tag": "set_in", "what": what}
         return {"stmts": st, "expect": None, "tag": "set_out", "what": what}
+    if form == "setop":
+        _, c, i, op = desc
+        n = len(c)
+        decl = A.Declare(V(x), seq_expr("list", c))
+        st = [decl, A.OpAssign(op, A.Index(V(x), I(i)), I(2)), A.pr(V(x))]
+        what = "%r[%d] %s= 2" % (list(c), i, op)
+        if 0 <= i < n:
+            after = list(c)
+            after[i] = {"+": c[i] + 2, "-": c[i] - 2, "*": c[i] * 2}[op]
+            return {"stmts": st, "expect": render_list(after), "tag": "opassign_in", "what": what}
+        return {"stmts": st, "expect": None, "tag": "opassign_out", "what": what}
     if form == "opcat":
         _, variant = desc
         y = "y%d" % k
@@ -265,6 +276,8 @@ def run(rep, tier):
         n = len(c)
         for i in range(-2, n + 3):
             descs.append(("set", c, i))
+            if n <= 3 or i in (-1, n - 1, n, n + 1):
+                descs.append(("setop", c, i, "+-*"[(i + n) % 3]))
     descs.append(("setstr", ("a", "b")))
     for variant in ("self", "other", "element_of_self", "strings"):
         descs.append(("opcat", variant))
